@@ -30,6 +30,7 @@ var (
 	c06pEOFBehind  = sim.RegStat("probe:c06-peer-ends-the-stream-right-behind-its-last-frame")
 	c06pDataEOF    = sim.RegStat("probe:c06-transport-reports-eof-together-with-the-last-bytes")
 	c06pChained    = sim.RegStat("probe:c06-next-read-started-from-inside-the-completion")
+	c06pRetune     = sim.RegStat("probe:c06-max-message-size-raised-while-an-async-read-is-pending")
 	c06pAPI        = [4]sim.StatID{sim.RegStat("probe:c06-api-NextMessage"), sim.RegStat("probe:c06-api-AsyncNextMessage"), sim.RegStat("probe:c06-api-NextFrame"), sim.RegStat("probe:c06-api-AsyncNextFrame")}
 )
 
@@ -116,11 +117,11 @@ func wsGenSession(w *sim.World, nMsgs, maxSize int, allowCtl bool) *wsGenOut {
 			prev = end
 			if allowCtl && k < nFrag-1 && w.Chance(1, 3) {
 				w.Stat(c06pCtrlInside)
-				g.addCtl(w)
+				g.addCtl(w, maxSize)
 			}
 		}
 		if allowCtl && w.Chance(1, 5) {
-			g.addCtl(w)
+			g.addCtl(w, maxSize)
 		}
 	}
 	for _, f := range g.frames {
@@ -137,12 +138,16 @@ func wsGenSession(w *sim.World, nMsgs, maxSize int, allowCtl bool) *wsGenOut {
 	return g
 }
 
-func (g *wsGenOut) addCtl(w *sim.World) {
+func (g *wsGenOut) addCtl(w *sim.World, maxSize int) {
 	op := byte(wsPing)
 	if w.Chance(1, 2) {
 		op = wsPong
 	}
-	p := make([]byte, w.Pick(0, 1, 4, 125))
+	n := w.Pick(0, 1, 4, 125)
+	if n > maxSize {
+		n = maxSize // a configured maximum below 125 bounds control frames too: a conforming session stays within it
+	}
+	p := make([]byte, n)
 	w.DataBytes(p)
 	g.ctls = append(g.ctls, wsCtl{op, p})
 	g.frames = append(g.frames, wsFrame{Fin: true, Opcode: op, Payload: p})
@@ -175,6 +180,17 @@ type c06Reader struct {
 	asm    []byte // frame APIs: message being reassembled
 	asmTyp int
 	endErr error
+	// retune: the application raises the maximum message size while an asynchronous read is waiting for bytes (an
+	// option changed at run time; nothing the peer sends is near either limit)
+	retune bool
+}
+
+func (r *c06Reader) maybeRetune(done *bool) {
+	if r.retune && !*done && r.d.w.Chance(1, 2) {
+		r.d.w.Stat(c06pRetune)
+		r.max += r.d.w.Pick(1, 5000, 70000, 300000)
+		r.d.ws.SetMaxMessageSize(r.max)
+	}
 }
 
 // readAll reads until nMsgs messages were delivered or an error ends the session.
@@ -220,6 +236,7 @@ func (r *c06Reader) readAll(nMsgs int) {
 		}
 		if nMsgs > 0 {
 			step()
+			r.maybeRetune(&finished)
 			if !r.wait(&finished) {
 				r.endErr = errors.New("async read never completed")
 			}
@@ -248,6 +265,7 @@ func (r *c06Reader) readAll(nMsgs int) {
 				err error
 			)
 			ws.AsyncNextMessage(buf, func(e error, nn int, t websocket.MessageType) { err, n, mt, done = e, nn, t, true })
+			r.maybeRetune(&done)
 			if !r.wait(&done) {
 				r.endErr = errors.New("async read never completed")
 				return
@@ -271,6 +289,7 @@ func (r *c06Reader) readAll(nMsgs int) {
 				err error
 			)
 			ws.AsyncNextFrame(func(e error, fr websocket.Frame) { err, f, done = e, fr, true })
+			r.maybeRetune(&done)
 			if !r.wait(&done) {
 				r.endErr = errors.New("async read never completed")
 				return
@@ -452,7 +471,7 @@ func runC06(c *Ctx, variant int) {
 		}
 		d.feedEOF()
 	}
-	r := &c06Reader{d: d, c: c, api: api, max: maxSize, chain: w.Chance(1, 2)}
+	r := &c06Reader{d: d, c: c, api: api, max: maxSize, chain: w.Chance(1, 2), retune: variant < 0 && w.Chance(1, 3)}
 	func() {
 		defer func() {
 			if x := recover(); x != nil {
